@@ -477,16 +477,16 @@ func E7PoolReinit(c *core.Ctx, r *core.Report) {
 
 // mapRangeReviewed: order-dependent looking bodies that are in fact order-independent, with the reason.
 var mapRangeReviewed = map[string]string{
-	"canvas.Canvas.Fit|range over map[int][]canvas.layer":                                  "the body only accumulates rect = rect.Add(bounds) / first assignment; Rect.Add is a commutative, associative hull",
-	"renderers/pdf.pdfPageWriter.SetFont|range over pdf.pdfDict":    "search for the unique name bound to ref: SetFont adds a ref to resources[Font] only when this search fails, so at most one key matches",
-	"renderers/pdf.pdfPageWriter.getPattern|range over pdf.pdfDict": "search for a pattern DeepEqual to the new one: a pattern is only added when this search fails, so at most one key matches",
+	"canvas.Canvas.Fit|range over map[int][]canvas.layer":                       "the body only accumulates rect = rect.Add(bounds) / first assignment; Rect.Add is a commutative, associative hull",
+	"renderers/pdf.pdfPageWriter.SetFont|range over pdf.pdfDict":                "search for the unique name bound to ref: SetFont adds a ref to resources[Font] only when this search fails, so at most one key matches",
+	"renderers/pdf.pdfPageWriter.getPattern|range over pdf.pdfDict":             "search for a pattern DeepEqual to the new one: a pattern is only added when this search fails, so at most one key matches",
 	"renderers/pdf.pdfWriter.writeFonts|range over map[*canvas.Font]pdf.pdfRef": "refMap[ref] = font inverts the map; the values are distinct because getFont reserves a fresh object number for every entry, and refs is sorted before use",
 }
 
 // mapRangeOutOfScope: functions outside the deterministic API set of C20.
 var mapRangeOutOfScope = map[string]string{
-	"canvas.ParseSVG|range over map[string]canvas.svgDef": "SVG import is not in C20's API set (marker application order)",
-	"canvas.dviFonts.Get|range over map[float64][]byte": "LaTeX/DVI font lookup is not in C20's API set",
+	"canvas.ParseSVG|range over map[string]canvas.svgDef":                          "SVG import is not in C20's API set (marker application order)",
+	"canvas.dviFonts.Get|range over map[float64][]byte":                            "LaTeX/DVI font lookup is not in C20's API set",
 	"canvas.FontFamily.Destroy|range over map[canvas.FontStyle]*canvas.Font":       "per-entry call on each value (independent objects)",
 	"canvas.FontFamily.SetVariations|range over map[canvas.FontStyle]*canvas.Font": "per-entry call on each value (independent objects)",
 	"canvas.FontFamily.SetFeatures|range over map[canvas.FontStyle]*canvas.Font":   "per-entry call on each value (independent objects)",
@@ -722,7 +722,9 @@ func classifyMapRange(p *packages.Package, fd *ast.FuncDecl, rs *ast.RangeStmt) 
 }
 
 // totalOrderArgBest recognises a deterministic arg-min/arg-max over a map:
-//   if d < best || d == best && key < bestKey { bestKey = key; best = d }
+//
+//	if d < best || d == best && key < bestKey { bestKey = key; best = d }
+//
 // (or with > for arg-max). Ties are broken by the total order on the keys, so the result does
 // not depend on the iteration order.
 func totalOrderArgBest(info *types.Info, is *ast.IfStmt, keyObj types.Object) bool {
